@@ -221,6 +221,42 @@ Definition has_key (k : str) (l : list (str * json)) : bool := existsb (fun kv =
 Definition json_eqb (a b : json) : bool := seqb (wv true 0 a) (wv true 0 b).
 Definition opt_json_eqb (a : option json) (b : json) : bool := match a with Some x => json_eqb x b | None => false end.
 
+(* ------------------------------------------------------------------ numeric QVariant types *)
+(* An attribute value is a QVariant.  The numeric types an attribute can carry, each holding the
+   mathematical integer z: int, uint, qlonglong, qulonglong, double, float (integral value).
+   [num_store t z] is the integer the C++ object of type t holds after z was converted to it
+   (two's-complement wrap-around for the 32-bit types, a negative value into an unsigned 64-bit type
+   wraps modulo 2^64); QJsonValue::fromVariant of Qt 5.15 then yields that number whatever the type:
+   int / uint / qlonglong through toLongLong(), qulonglong through toLongLong() up to 2^63-1,
+   float / double through toDouble(), and a double that holds an integer is written as that integer.
+   The property quantifies over |z| <= 2^53 inside the range of the type (for a float: the integers up to
+   2^24, all of which it represents exactly): [num_in_range]. *)
+Inductive numty := TInt | TUInt | TLongLong | TULongLong | TDouble | TFloat.
+Definition numty_code (t : numty) : N :=
+  match t with TInt => 0 | TUInt => 1 | TLongLong => 2 | TULongLong => 3 | TDouble => 4 | TFloat => 5 end.
+Definition two24 : Z := 16777216.
+Definition two31 : Z := 2147483648.
+Definition two32 : Z := 4294967296.
+Definition two53 : Z := 9007199254740992.
+Definition two64 : Z := 18446744073709551616.
+Definition num_store (t : numty) (z : Z) : Z :=
+  match t with
+  | TInt => ((z + two31) mod two32 - two31)%Z
+  | TUInt => (z mod two32)%Z
+  | TULongLong => (z mod two64)%Z
+  | TLongLong | TDouble | TFloat => z
+  end.
+Definition num_in_range (t : numty) (z : Z) : bool :=
+  match t with
+  | TInt => ((- two31 <=? z) && (z <? two31))%Z
+  | TUInt => ((0 <=? z) && (z <? two32))%Z
+  | TULongLong => ((0 <=? z) && (z <=? two53))%Z
+  | TLongLong | TDouble => ((- two53 <=? z) && (z <=? two53))%Z
+  | TFloat => ((- two24 <=? z) && (z <=? two24))%Z   (* every integer of this magnitude is a binary32 value *)
+  end.
+(* QJsonValue::fromVariant(QVariant::fromValue<t>(z)) *)
+Definition num_value (t : numty) (z : Z) : json := JNum (num_store t z).
+
 (* ------------------------------------------------------------------ the message and allAttributes() *)
 (* file / function / category are C strings that may be null pointers (None) *)
 Record lmsg := { mtype : N; mtext : str; mfmt : option str; mfile : option str; mfunc : option str; mcat : option str;
